@@ -16,6 +16,8 @@ import Proofs.Txn
 import EngineModel.Api.CratesV1
 import EngineModel.Db.V2Crates
 import EngineModel.TracksV2.Lens
+import EngineModel.Spec.Dir
+import Proofs.Dir
 
 namespace EngineModel.Properties.C16
 open EngineModel.Spec.Txn EngineModel.Spec.Observe EngineModel.Proofs.Txn
@@ -183,6 +185,62 @@ theorem C16_tracks_v2 (o : TracksV2.FOps)
         (fun d => TracksV2.Db.snapshot o d id)))).1
       = Conn.idle ((items.filterMap Sum.getLeft?).foldl (fun d c => (TracksV2.Db.set o d c.1 c.2).1) db) :=
   C16_api_history _ _ _ _
+
+/-! ### loading, `database_exists`, `create_or_load_database` on an existing library: observers of the directory
+
+`Spec/Dir.lean` models the directory (state of `m.db`, `p.db`, `Database2/`, `Database2/m.db`) and the static
+entry points from file-system primitives that *do* create files (SQLite opens read-write-create).  That they
+leave the directory alone is therefore a statement about the `path_exists` guards of the code. -/
+section dir
+open EngineModel.Spec.Dir EngineModel.Proofs.Dir EngineModel.Pure.Detect
+
+/-- `load_database` leaves every directory exactly as it was — whatever is (or is not) in it. -/
+theorem C16_load_database_pure (d : Dir) : (loadDatabase d).1 = d := loadDatabase_dir d
+
+/-- `database_exists` (a trial load) likewise. -/
+theorem C16_database_exists_pure (d : Dir) : (databaseExists d).1 = d := databaseExists_dir d
+
+/-- `engine::v2::engine_library::load` and `::exists` likewise. -/
+theorem C16_engine_library_load_pure (d : Dir) : (v2Load d).1 = d ∧ (v2Exists d).1 = d := ⟨v2Load_dir d, rfl⟩
+
+/-- `create_or_load_database` on a directory that holds a library — in whatever state, both layouts included —
+is an observer: nothing is created, the directory is as before. -/
+theorem C16_create_or_load_existing_pure (d : Dir) (req : Schema) (h : legacyExists d = true ∨ db2Exists d = true) :
+    (createOrLoadAt d req).dir = d ∧ (createOrLoadAt d req).created = false := by
+  have hc : (createOrLoadAt d req).created = false := by
+    cases hcr : (createOrLoadAt d req).created
+    · rfl
+    · have := (createOrLoadAt_created_iff d req).1 hcr
+      rcases h with h | h <;> simp_all
+  exact ⟨(createOrLoadAt_not_created d req hc).1, hc⟩
+
+/-- Repeated observation of a directory: the second application of each entry point answers as the first. -/
+theorem C16_dir_repeat (d : Dir) :
+    (loadDatabase (loadDatabase d).1).2 = (loadDatabase d).2 ∧
+    (databaseExists (databaseExists d).1).2 = (databaseExists d).2 ∧
+    (v2Load (v2Load d).1).2 = (v2Load d).2 := by
+  rw [loadDatabase_dir, databaseExists_dir, v2Load_dir]; exact ⟨rfl, rfl, rfl⟩
+
+/-- The guard matters (the defect repaired by 6269a0f): attaching `p.db` without checking that it exists creates
+it — loading a 1.x library whose `p.db` is missing modified the directory.  Replayed on the real library:
+corpus/C16/load-creates-pdb.txt. -/
+theorem C16_load_unguarded_counterexample :
+    let d : Dir := ⟨true, .valid, .absent, false, .absent, stampOf .schema_1_18_0_os, stampOf .schema_2_21_2⟩
+    (loadDatabaseWith loadLegacySqliteUnguarded loadDb2Sqlite d).1 ≠ d ∧
+    (loadDatabaseWith loadLegacySqliteUnguarded loadDb2Sqlite d).1.p = .zero ∧
+    (loadDatabase d) = (d, .throw inconsistency) := by
+  decide
+
+/-- Likewise for the 2.x loader (the seeded change C16-2: open instead of `path_exists`): with `Database2/` present
+but empty, `engine_library::load` creates a zero-byte `Database2/m.db` and later observations answer differently. -/
+theorem C16_engine_library_load_unguarded_counterexample :
+    let d : Dir := ⟨true, .absent, .absent, true, .absent, stampOf .schema_1_18_0_os, stampOf .schema_2_21_2⟩
+    (v2LoadWith loadDb2SqliteUnguarded d).1.dm = .zero ∧
+    (v2Exists d).2 = .ok false ∧ (v2Exists (v2LoadWith loadDb2SqliteUnguarded d).1).2 = .ok true ∧
+    (v2Load d) = (d, .throw notFound) := by
+  decide
+
+end dir
 
 /-! ### non-vacuity: the classification is not trivially true -/
 
